@@ -57,7 +57,11 @@ def _interp(fi, tree, node, fnarg, kw):
             elif kind == "ctxcall":
                 acc.append(_fn(step[1]).with_context_args(dict(step[3]))(tree, step[2]))
             elif kind == "prevent":
-                acc.append(_fn(step[1]).with_prevent_further_calls(True)(tree, step[2]))
+                g = _fn(step[1]).with_prevent_further_calls(True)
+                if len(step) > 3:  # the prevented call also attaches context arguments, before or after the prevention
+                    g = (_fn(step[1]).with_context_args(dict(step[3])).with_prevent_further_calls(True) if step[4] == "ctx_first"
+                         else g.with_context_args(dict(step[3])))
+                acc.append(g(tree, step[2]))
         except Exception as e:  # parents survive failing children
             acc.append("exc:" + type(e).__name__)
     if spec.get("fail") == "memoized":
